@@ -263,7 +263,7 @@ func (e *Enc) alloc(x *ssa.Alloc) {
 	}
 	r := e.declare(name, SInt)
 	e.allocs = append(e.allocs, r)
-	e.assumeGlobal(and(not(eq(r, intLit(0))), eq(app(SInt, "ref.tag", r), intLit(int64(e.tagFor(e.fnLabel+name))))), "fresh allocation")
+	e.assumeGlobal(and(not(eq(r, intLit(0))), eq(app(SInt, "ref.tag", r), intLit(int64(e.tagFor(e.fnLabel+name)))), eq(app(SInt, "ref.root", r), r), not(app(SBool, "ref.old", r))), "fresh allocation")
 	for _, p := range e.ptrParams {
 		e.assumeGlobal(not(eq(r, p)), "fresh allocation differs from parameters")
 	}
@@ -444,7 +444,7 @@ func (e *Enc) convert(x *ssa.Convert) {
 }
 
 func (e *Enc) freshRefFact(r Term) Term {
-	var cs []Term
+	cs := []Term{eq(app(SInt, "ref.root", r), r), not(app(SBool, "ref.old", r))}
 	for _, p := range e.ptrParams {
 		cs = append(cs, not(eq(r, p)))
 	}
